@@ -1,5 +1,5 @@
 // auto-generated: "lalrpop 0.23.1"
-// sha3: e76cafee3590b975ffc57c4dec34be20651486d50b9d6b9628ec909e76f5fa7e
+// sha3: e815a0a2e621a60407192f876a551f117fb322b438e735520414d59eafd324a5
 use crate::rt::*;
 #[allow(unused_extern_crates)]
 extern crate lalrpop_util as __lalrpop_util;
@@ -10,7 +10,7 @@ extern crate alloc;
 
 #[rustfmt::skip]
 #[allow(explicit_outlives_requirements, non_snake_case, non_camel_case_types, unused_mut, unused_variables, unused_imports, unused_parens, clippy::needless_lifetimes, clippy::type_complexity, clippy::needless_return, clippy::too_many_arguments, clippy::match_single_binding, clippy::clone_on_copy, clippy::unit_arg)]
-mod __parse__E {
+mod __parse__S {
 
     use crate::rt::*;
     #[allow(unused_extern_crates)]
@@ -29,50 +29,80 @@ mod __parse__E {
     }
     const __ACTION: &[i8] = &[
         // State 0
-        0, 0, 2, 0, 9, 0,
+        3, 4, 5, 0, 0,
         // State 1
-        0, 0, 2, 0, 9, 0,
+        0, 0, 0, 0, 6,
         // State 2
-        0, 0, 2, 0, 9, 0,
+        0, 0, 0, 7, 0,
         // State 3
-        0, 0, 2, 0, 9, 0,
+        0, 0, 0, 8, 0,
         // State 4
-        0, 0, 2, 0, 9, 0,
+        0, 0, 0, 9, 0,
         // State 5
-        3, 0, 0, 0, 0, 0,
+        10, 11, 12, 0, 0,
         // State 6
-        -13, -13, 0, -13, 0, 0,
+        13, 14, 15, 0, 0,
         // State 7
-        -6, 4, 0, -6, 0, 0,
+        16, 17, 18, 0, 0,
         // State 8
-        0, 0, 0, 0, 12, 11,
+        19, 20, 21, 0, 0,
         // State 9
-        3, 0, 0, 14, 0, 0,
+        0, 0, 0, 22, 0,
         // State 10
-        0, 0, 0, 0, 15, 0,
+        0, 0, 0, 23, 0,
         // State 11
-        -7, -7, -7, -7, -7, 16,
+        0, 0, 0, 24, 0,
         // State 12
-        -5, 4, 0, -5, 0, 0,
+        0, 0, 0, 0, -6,
         // State 13
-        -11, -11, -11, -11, -11, 0,
+        0, 0, 0, 0, -7,
         // State 14
-        -9, -9, -9, -9, -9, 18,
+        0, 0, 0, 0, -8,
         // State 15
-        -8, -8, -8, -8, -8, 0,
+        0, 0, 0, 0, -9,
         // State 16
-        -12, -12, 0, -12, 0, 0,
+        0, 0, 0, 0, -10,
         // State 17
-        -10, -10, -10, -10, -10, 0,
+        0, 0, 0, 0, -11,
+        // State 18
+        0, 0, 0, 0, -12,
+        // State 19
+        0, 0, 0, 0, -13,
+        // State 20
+        0, 0, 0, 0, -14,
+        // State 21
+        25, 26, 27, 0, 0,
+        // State 22
+        28, 29, 30, 0, 0,
+        // State 23
+        31, 32, 33, 0, 0,
+        // State 24
+        0, 0, 0, 0, -15,
+        // State 25
+        0, 0, 0, 0, -16,
+        // State 26
+        0, 0, 0, 0, -17,
+        // State 27
+        0, 0, 0, 0, -18,
+        // State 28
+        0, 0, 0, 0, -19,
+        // State 29
+        0, 0, 0, 0, -20,
+        // State 30
+        0, 0, 0, 0, -21,
+        // State 31
+        0, 0, 0, 0, -22,
+        // State 32
+        0, 0, 0, 0, -23,
     ];
     fn __action(state: i8, integer: usize) -> i8 {
-        __ACTION[(state as usize) * 6 + integer]
+        __ACTION[(state as usize) * 5 + integer]
     }
     const __EOF_ACTION: &[i8] = &[
         // State 0
         0,
         // State 1
-        0,
+        -24,
         // State 2
         0,
         // State 3
@@ -80,11 +110,11 @@ mod __parse__E {
         // State 4
         0,
         // State 5
-        -14,
+        0,
         // State 6
-        -13,
+        0,
         // State 7
-        -6,
+        0,
         // State 8
         0,
         // State 9
@@ -92,46 +122,63 @@ mod __parse__E {
         // State 10
         0,
         // State 11
-        -7,
+        0,
         // State 12
-        -5,
+        -6,
         // State 13
-        -11,
+        -7,
         // State 14
-        -9,
-        // State 15
         -8,
+        // State 15
+        -9,
         // State 16
-        -12,
-        // State 17
         -10,
+        // State 17
+        -11,
+        // State 18
+        -12,
+        // State 19
+        -13,
+        // State 20
+        -14,
+        // State 21
+        0,
+        // State 22
+        0,
+        // State 23
+        0,
+        // State 24
+        -15,
+        // State 25
+        -16,
+        // State 26
+        -17,
+        // State 27
+        -18,
+        // State 28
+        -19,
+        // State 29
+        -20,
+        // State 30
+        -21,
+        // State 31
+        -22,
+        // State 32
+        -23,
     ];
     fn __goto(state: i8, nt: usize) -> i8 {
         match nt {
-            3 => match state {
-                1 => 9,
-                _ => 5,
-            },
-            4 => match state {
-                0..=2 => 6,
-                4 => 16,
-                _ => 4,
-            },
-            5 => match state {
-                2 => 12,
-                _ => 7,
-            },
+            3 => 1,
             _ => 0,
         }
     }
     #[allow(clippy::needless_raw_string_hashes)]
     const __TERMINAL: &[&str] = &[
-        r###""+""###,
-        r###""*""###,
-        r###""(""###,
-        r###"")""###,
-        r###""x""###,
-        r###""q""###,
+        r###""n""###,
+        r###""one""###,
+        r###""two""###,
+        r###"",""###,
+        r###"";""###,
     ];
     fn __expected_tokens(__state: i8) -> alloc::vec::Vec<alloc::string::String> {
         __TERMINAL.iter().enumerate().filter_map(|(index, terminal)| {
@@ -198,7 +245,7 @@ mod __parse__E {
 
         #[inline]
         fn error_action(&self, state: i8) -> i8 {
-            __action(state, 6 - 1)
+            __action(state, 5 - 1)
         }
 
         #[inline]
@@ -269,7 +316,6 @@ mod __parse__E {
             Tok('c', _, _, _) if true => Some(2),
             Tok('d', _, _, _) if true => Some(3),
             Tok('e', _, _, _) if true => Some(4),
-            Tok('f', _, _, _) if true => Some(5),
             _ => None,
         }
     }
@@ -281,7 +327,7 @@ mod __parse__E {
     ) -> __Symbol<>
     {
         #[allow(clippy::manual_range_patterns)]match __token_index {
-            0 | 1 | 2 | 3 | 4 | 5 => __Symbol::Variant0(__token),
+            0 | 1 | 2 | 3 | 4 => __Symbol::Variant0(__token),
             _ => unreachable!(),
         }
     }
@@ -312,76 +358,136 @@ mod __parse__E {
             }
             3 => {
                 __state_machine::SimulatedReduce::Reduce {
-                    states_to_pop: 2,
+                    states_to_pop: 1,
                     nonterminal_produced: 2,
                 }
             }
             4 => {
                 __state_machine::SimulatedReduce::Reduce {
-                    states_to_pop: 3,
-                    nonterminal_produced: 3,
+                    states_to_pop: 1,
+                    nonterminal_produced: 2,
                 }
             }
             5 => {
                 __state_machine::SimulatedReduce::Reduce {
-                    states_to_pop: 1,
+                    states_to_pop: 3,
                     nonterminal_produced: 3,
                 }
             }
             6 => {
                 __state_machine::SimulatedReduce::Reduce {
-                    states_to_pop: 2,
-                    nonterminal_produced: 4,
+                    states_to_pop: 3,
+                    nonterminal_produced: 3,
                 }
             }
             7 => {
                 __state_machine::SimulatedReduce::Reduce {
                     states_to_pop: 3,
-                    nonterminal_produced: 4,
+                    nonterminal_produced: 3,
                 }
             }
             8 => {
                 __state_machine::SimulatedReduce::Reduce {
                     states_to_pop: 3,
-                    nonterminal_produced: 4,
+                    nonterminal_produced: 3,
                 }
             }
             9 => {
                 __state_machine::SimulatedReduce::Reduce {
-                    states_to_pop: 4,
-                    nonterminal_produced: 4,
+                    states_to_pop: 3,
+                    nonterminal_produced: 3,
                 }
             }
             10 => {
                 __state_machine::SimulatedReduce::Reduce {
                     states_to_pop: 3,
-                    nonterminal_produced: 4,
+                    nonterminal_produced: 3,
                 }
             }
             11 => {
                 __state_machine::SimulatedReduce::Reduce {
-                    states_to_pop: 4,
-                    nonterminal_produced: 5,
+                    states_to_pop: 3,
+                    nonterminal_produced: 3,
                 }
             }
             12 => {
                 __state_machine::SimulatedReduce::Reduce {
-                    states_to_pop: 1,
-                    nonterminal_produced: 5,
+                    states_to_pop: 3,
+                    nonterminal_produced: 3,
                 }
             }
-            13 => __state_machine::SimulatedReduce::Accept,
+            13 => {
+                __state_machine::SimulatedReduce::Reduce {
+                    states_to_pop: 3,
+                    nonterminal_produced: 3,
+                }
+            }
+            14 => {
+                __state_machine::SimulatedReduce::Reduce {
+                    states_to_pop: 5,
+                    nonterminal_produced: 3,
+                }
+            }
+            15 => {
+                __state_machine::SimulatedReduce::Reduce {
+                    states_to_pop: 5,
+                    nonterminal_produced: 3,
+                }
+            }
+            16 => {
+                __state_machine::SimulatedReduce::Reduce {
+                    states_to_pop: 5,
+                    nonterminal_produced: 3,
+                }
+            }
+            17 => {
+                __state_machine::SimulatedReduce::Reduce {
+                    states_to_pop: 5,
+                    nonterminal_produced: 3,
+                }
+            }
+            18 => {
+                __state_machine::SimulatedReduce::Reduce {
+                    states_to_pop: 5,
+                    nonterminal_produced: 3,
+                }
+            }
+            19 => {
+                __state_machine::SimulatedReduce::Reduce {
+                    states_to_pop: 5,
+                    nonterminal_produced: 3,
+                }
+            }
+            20 => {
+                __state_machine::SimulatedReduce::Reduce {
+                    states_to_pop: 5,
+                    nonterminal_produced: 3,
+                }
+            }
+            21 => {
+                __state_machine::SimulatedReduce::Reduce {
+                    states_to_pop: 5,
+                    nonterminal_produced: 3,
+                }
+            }
+            22 => {
+                __state_machine::SimulatedReduce::Reduce {
+                    states_to_pop: 5,
+                    nonterminal_produced: 3,
+                }
+            }
+            23 => __state_machine::SimulatedReduce::Accept,
             _ => panic!("invalid reduction index {__reduce_index}")
         }
     }
-    pub struct EParser {
+    pub struct SParser {
         _priv: (),
     }
 
-    impl Default for EParser { fn default() -> Self { Self::new() } }
-    impl EParser {
-        pub fn new() -> EParser {
-            EParser {
+    impl Default for SParser { fn default() -> Self { Self::new() } }
+    impl SParser {
+        pub fn new() -> SParser {
+            SParser {
                 _priv: (),
             }
         }
@@ -454,7 +560,16 @@ mod __parse__E {
                 __reduce1(__lookahead_start, __symbols, core::marker::PhantomData::<()>)
             }
             2 => {
-                __reduce2(__lookahead_start, __symbols, core::marker::PhantomData::<()>)
+                // I = "n" => ActionFn(13);
+                let __sym0 = __pop_Variant0(__symbols);
+                let __start = __sym0.0.clone();
+                let __end = __sym0.2.clone();
+                let __nt = match super::__action13::<>(__sym0) {
+                    Ok(v) => v,
+                    Err(e) => return Some(Err(e)),
+                };
+                __symbols.push((__start, __Symbol::Variant2(__nt), __end));
+                (1, 2)
             }
             3 => {
                 __reduce3(__lookahead_start, __symbols, core::marker::PhantomData::<()>)
@@ -463,16 +578,52 @@ mod __parse__E {
                 __reduce4(__lookahead_start, __symbols, core::marker::PhantomData::<()>)
             }
             5 => {
-                __reduce5(__lookahead_start, __symbols, core::marker::PhantomData::<()>)
+                // S = "n", ",", "n" => ActionFn(18);
+                assert!(__symbols.len() >= 3);
+                let __sym2 = __pop_Variant0(__symbols);
+                let __sym1 = __pop_Variant0(__symbols);
+                let __sym0 = __pop_Variant0(__symbols);
+                let __start = __sym0.0.clone();
+                let __end = __sym2.2.clone();
+                let __nt = match super::__action18::<>(__sym0, __sym1, __sym2) {
+                    Ok(v) => v,
+                    Err(e) => return Some(Err(e)),
+                };
+                __symbols.push((__start, __Symbol::Variant2(__nt), __end));
+                (3, 3)
             }
             6 => {
-                __reduce6(__lookahead_start, __symbols, core::marker::PhantomData::<()>)
+                // S = "n", ",", "one" => ActionFn(19);
+                assert!(__symbols.len() >= 3);
+                let __sym2 = __pop_Variant0(__symbols);
+                let __sym1 = __pop_Variant0(__symbols);
+                let __sym0 = __pop_Variant0(__symbols);
+                let __start = __sym0.0.clone();
+                let __end = __sym2.2.clone();
+                let __nt = match super::__action19::<>(__sym0, __sym1, __sym2) {
+                    Ok(v) => v,
+                    Err(e) => return Some(Err(e)),
+                };
+                __symbols.push((__start, __Symbol::Variant2(__nt), __end));
+                (3, 3)
             }
             7 => {
                 __reduce7(__lookahead_start, __symbols, core::marker::PhantomData::<()>)
             }
             8 => {
-                __reduce8(__lookahead_start, __symbols, core::marker::PhantomData::<()>)
+                // S = "one", ",", "n" => ActionFn(21);
+                assert!(__symbols.len() >= 3);
+                let __sym2 = __pop_Variant0(__symbols);
+                let __sym1 = __pop_Variant0(__symbols);
+                let __sym0 = __pop_Variant0(__symbols);
+                let __start = __sym0.0.clone();
+                let __end = __sym2.2.clone();
+                let __nt = match super::__action21::<>(__sym0, __sym1, __sym2) {
+                    Ok(v) => v,
+                    Err(e) => return Some(Err(e)),
+                };
+                __symbols.push((__start, __Symbol::Variant2(__nt), __end));
+                (3, 3)
             }
             9 => {
                 __reduce9(__lookahead_start, __symbols, core::marker::PhantomData::<()>)
@@ -481,13 +632,111 @@ mod __parse__E {
                 __reduce10(__lookahead_start, __symbols, core::marker::PhantomData::<()>)
             }
             11 => {
-                __reduce11(__lookahead_start, __symbols, core::marker::PhantomData::<()>)
+                // S = "two", ",", "n" => ActionFn(24);
+                assert!(__symbols.len() >= 3);
+                let __sym2 = __pop_Variant0(__symbols);
+                let __sym1 = __pop_Variant0(__symbols);
+                let __sym0 = __pop_Variant0(__symbols);
+                let __start = __sym0.0.clone();
+                let __end = __sym2.2.clone();
+                let __nt = match super::__action24::<>(__sym0, __sym1, __sym2) {
+                    Ok(v) => v,
+                    Err(e) => return Some(Err(e)),
+                };
+                __symbols.push((__start, __Symbol::Variant2(__nt), __end));
+                (3, 3)
             }
             12 => {
                 __reduce12(__lookahead_start, __symbols, core::marker::PhantomData::<()>)
             }
             13 => {
-                // __E = E => ActionFn(0);
+                __reduce13(__lookahead_start, __symbols, core::marker::PhantomData::<()>)
+            }
+            14 => {
+                // S = S, ";", "n", ",", "n" => ActionFn(27);
+                assert!(__symbols.len() >= 5);
+                let __sym4 = __pop_Variant0(__symbols);
+                let __sym3 = __pop_Variant0(__symbols);
+                let __sym2 = __pop_Variant0(__symbols);
+                let __sym1 = __pop_Variant0(__symbols);
+                let __sym0 = __pop_Variant2(__symbols);
+                let __start = __sym0.0.clone();
+                let __end = __sym4.2.clone();
+                let __nt = match super::__action27::<>(__sym0, __sym1, __sym2, __sym3, __sym4) {
+                    Ok(v) => v,
+                    Err(e) => return Some(Err(e)),
+                };
+                __symbols.push((__start, __Symbol::Variant2(__nt), __end));
+                (5, 3)
+            }
+            15 => {
+                // S = S, ";", "n", ",", "one" => ActionFn(28);
+                assert!(__symbols.len() >= 5);
+                let __sym4 = __pop_Variant0(__symbols);
+                let __sym3 = __pop_Variant0(__symbols);
+                let __sym2 = __pop_Variant0(__symbols);
+                let __sym1 = __pop_Variant0(__symbols);
+                let __sym0 = __pop_Variant2(__symbols);
+                let __start = __sym0.0.clone();
+                let __end = __sym4.2.clone();
+                let __nt = match super::__action28::<>(__sym0, __sym1, __sym2, __sym3, __sym4) {
+                    Ok(v) => v,
+                    Err(e) => return Some(Err(e)),
+                };
+                __symbols.push((__start, __Symbol::Variant2(__nt), __end));
+                (5, 3)
+            }
+            16 => {
+                __reduce16(__lookahead_start, __symbols, core::marker::PhantomData::<()>)
+            }
+            17 => {
+                // S = S, ";", "one", ",", "n" => ActionFn(30);
+                assert!(__symbols.len() >= 5);
+                let __sym4 = __pop_Variant0(__symbols);
+                let __sym3 = __pop_Variant0(__symbols);
+                let __sym2 = __pop_Variant0(__symbols);
+                let __sym1 = __pop_Variant0(__symbols);
+                let __sym0 = __pop_Variant2(__symbols);
+                let __start = __sym0.0.clone();
+                let __end = __sym4.2.clone();
+                let __nt = match super::__action30::<>(__sym0, __sym1, __sym2, __sym3, __sym4) {
+                    Ok(v) => v,
+                    Err(e) => return Some(Err(e)),
+                };
+                __symbols.push((__start, __Symbol::Variant2(__nt), __end));
+                (5, 3)
+            }
+            18 => {
+                __reduce18(__lookahead_start, __symbols, core::marker::PhantomData::<()>)
+            }
+            19 => {
+                __reduce19(__lookahead_start, __symbols, core::marker::PhantomData::<()>)
+            }
+            20 => {
+                // S = S, ";", "two", ",", "n" => ActionFn(33);
+                assert!(__symbols.len() >= 5);
+                let __sym4 = __pop_Variant0(__symbols);
+                let __sym3 = __pop_Variant0(__symbols);
+                let __sym2 = __pop_Variant0(__symbols);
+                let __sym1 = __pop_Variant0(__symbols);
+                let __sym0 = __pop_Variant2(__symbols);
+                let __start = __sym0.0.clone();
+                let __end = __sym4.2.clone();
+                let __nt = match super::__action33::<>(__sym0, __sym1, __sym2, __sym3, __sym4) {
+                    Ok(v) => v,
+                    Err(e) => return Some(Err(e)),
+                };
+                __symbols.push((__start, __Symbol::Variant2(__nt), __end));
+                (5, 3)
+            }
+            21 => {
+                __reduce21(__lookahead_start, __symbols, core::marker::PhantomData::<()>)
+            }
+            22 => {
+                __reduce22(__lookahead_start, __symbols, core::marker::PhantomData::<()>)
+            }
+            23 => {
+                // __S = S => ActionFn(0);
                 let __sym0 = __pop_Variant2(__symbols);
                 let __start = __sym0.0.clone();
                 let __end = __sym0.2.clone();
@@ -544,10 +793,10 @@ mod __parse__E {
         _: core::marker::PhantomData<()>,
     ) -> (usize, usize)
     {
-        // @L =  => ActionFn(10);
+        // @L =  => ActionFn(7);
         let __start = __lookahead_start.cloned().or_else(|| __symbols.last().map(|s| s.2.clone())).unwrap_or_default();
         let __end = __start.clone();
-        let __nt = super::__action10::<>(&__start, &__end);
+        let __nt = super::__action7::<>(&__start, &__end);
         __symbols.push((__start, __Symbol::Variant1(__nt), __end));
         (0, 0)
     }
@@ -558,27 +807,12 @@ mod __parse__E {
         _: core::marker::PhantomData<()>,
     ) -> (usize, usize)
     {
-        // @R =  => ActionFn(9);
+        // @R =  => ActionFn(6);
         let __start = __lookahead_start.cloned().or_else(|| __symbols.last().map(|s| s.2.clone())).unwrap_or_default();
         let __end = __start.clone();
-        let __nt = super::__action9::<>(&__start, &__end);
+        let __nt = super::__action6::<>(&__start, &__end);
         __symbols.push((__start, __Symbol::Variant1(__nt), __end));
         (0, 1)
-    }
-    fn __reduce2<
-    >(
-        __lookahead_start: Option<&i64>,
-        __symbols: &mut alloc::vec::Vec<(i64,__Symbol<>,i64)>,
-        _: core::marker::PhantomData<()>,
-    ) -> (usize, usize)
-    {
-        // A = "x" => ActionFn(19);
-        let __sym0 = __pop_Variant0(__symbols);
-        let __start = __sym0.0.clone();
-        let __end = __sym0.2.clone();
-        let __nt = super::__action19::<>(__sym0);
-        __symbols.push((__start, __Symbol::Variant2(__nt), __end));
-        (1, 2)
     }
     fn __reduce3<
     >(
@@ -587,15 +821,13 @@ mod __parse__E {
         _: core::marker::PhantomData<()>,
     ) -> (usize, usize)
     {
-        // A = "x", "q" => ActionFn(20);
-        assert!(__symbols.len() >= 2);
-        let __sym1 = __pop_Variant0(__symbols);
+        // I = "one" => ActionFn(14);
         let __sym0 = __pop_Variant0(__symbols);
         let __start = __sym0.0.clone();
-        let __end = __sym1.2.clone();
-        let __nt = super::__action20::<>(__sym0, __sym1);
+        let __end = __sym0.2.clone();
+        let __nt = super::__action14::<>(__sym0);
         __symbols.push((__start, __Symbol::Variant2(__nt), __end));
-        (2, 2)
+        (1, 2)
     }
     fn __reduce4<
     >(
@@ -604,48 +836,13 @@ mod __parse__E {
         _: core::marker::PhantomData<()>,
     ) -> (usize, usize)
     {
-        // E = E, "+", T => ActionFn(21);
-        assert!(__symbols.len() >= 3);
-        let __sym2 = __pop_Variant2(__symbols);
-        let __sym1 = __pop_Variant0(__symbols);
-        let __sym0 = __pop_Variant2(__symbols);
-        let __start = __sym0.0.clone();
-        let __end = __sym2.2.clone();
-        let __nt = super::__action21::<>(__sym0, __sym1, __sym2);
-        __symbols.push((__start, __Symbol::Variant2(__nt), __end));
-        (3, 3)
-    }
-    fn __reduce5<
-    >(
-        __lookahead_start: Option<&i64>,
-        __symbols: &mut alloc::vec::Vec<(i64,__Symbol<>,i64)>,
-        _: core::marker::PhantomData<()>,
-    ) -> (usize, usize)
-    {
-        // E = T => ActionFn(22);
-        let __sym0 = __pop_Variant2(__symbols);
-        let __start = __sym0.0.clone();
-        let __end = __sym0.2.clone();
-        let __nt = super::__action22::<>(__sym0);
-        __symbols.push((__start, __Symbol::Variant2(__nt), __end));
-        (1, 3)
-    }
-    fn __reduce6<
-    >(
-        __lookahead_start: Option<&i64>,
-        __symbols: &mut alloc::vec::Vec<(i64,__Symbol<>,i64)>,
-        _: core::marker::PhantomData<()>,
-    ) -> (usize, usize)
-    {
-        // F = "x", "x" => ActionFn(27);
-        assert!(__symbols.len() >= 2);
-        let __sym1 = __pop_Variant0(__symbols);
+        // I = "two" => ActionFn(15);
         let __sym0 = __pop_Variant0(__symbols);
         let __start = __sym0.0.clone();
-        let __end = __sym1.2.clone();
-        let __nt = super::__action27::<>(__sym0, __sym1);
+        let __end = __sym0.2.clone();
+        let __nt = super::__action15::<>(__sym0);
         __symbols.push((__start, __Symbol::Variant2(__nt), __end));
-        (2, 4)
+        (1, 2)
     }
     fn __reduce7<
     >(
@@ -654,34 +851,16 @@ mod __parse__E {
         _: core::marker::PhantomData<()>,
     ) -> (usize, usize)
     {
-        // F = "x", "x", "q" => ActionFn(28);
+        // S = "n", ",", "two" => ActionFn(20);
         assert!(__symbols.len() >= 3);
         let __sym2 = __pop_Variant0(__symbols);
         let __sym1 = __pop_Variant0(__symbols);
         let __sym0 = __pop_Variant0(__symbols);
         let __start = __sym0.0.clone();
         let __end = __sym2.2.clone();
-        let __nt = super::__action28::<>(__sym0, __sym1, __sym2);
+        let __nt = super::__action20::<>(__sym0, __sym1, __sym2);
         __symbols.push((__start, __Symbol::Variant2(__nt), __end));
-        (3, 4)
-    }
-    fn __reduce8<
-    >(
-        __lookahead_start: Option<&i64>,
-        __symbols: &mut alloc::vec::Vec<(i64,__Symbol<>,i64)>,
-        _: core::marker::PhantomData<()>,
-    ) -> (usize, usize)
-    {
-        // F = "x", "q", "x" => ActionFn(29);
-        assert!(__symbols.len() >= 3);
-        let __sym2 = __pop_Variant0(__symbols);
-        let __sym1 = __pop_Variant0(__symbols);
-        let __sym0 = __pop_Variant0(__symbols);
-        let __start = __sym0.0.clone();
-        let __end = __sym2.2.clone();
-        let __nt = super::__action29::<>(__sym0, __sym1, __sym2);
-        __symbols.push((__start, __Symbol::Variant2(__nt), __end));
-        (3, 4)
+        (3, 3)
     }
     fn __reduce9<
     >(
@@ -690,17 +869,16 @@ mod __parse__E {
         _: core::marker::PhantomData<()>,
     ) -> (usize, usize)
     {
-        // F = "x", "q", "x", "q" => ActionFn(30);
-        assert!(__symbols.len() >= 4);
-        let __sym3 = __pop_Variant0(__symbols);
+        // S = "one", ",", "one" => ActionFn(22);
+        assert!(__symbols.len() >= 3);
         let __sym2 = __pop_Variant0(__symbols);
         let __sym1 = __pop_Variant0(__symbols);
         let __sym0 = __pop_Variant0(__symbols);
         let __start = __sym0.0.clone();
-        let __end = __sym3.2.clone();
-        let __nt = super::__action30::<>(__sym0, __sym1, __sym2, __sym3);
+        let __end = __sym2.2.clone();
+        let __nt = super::__action22::<>(__sym0, __sym1, __sym2);
         __symbols.push((__start, __Symbol::Variant2(__nt), __end));
-        (4, 4)
+        (3, 3)
     }
     fn __reduce10<
     >(
@@ -709,35 +887,16 @@ mod __parse__E {
         _: core::marker::PhantomData<()>,
     ) -> (usize, usize)
     {
-        // F = "(", E, ")" => ActionFn(24);
+        // S = "one", ",", "two" => ActionFn(23);
         assert!(__symbols.len() >= 3);
         let __sym2 = __pop_Variant0(__symbols);
-        let __sym1 = __pop_Variant2(__symbols);
+        let __sym1 = __pop_Variant0(__symbols);
         let __sym0 = __pop_Variant0(__symbols);
         let __start = __sym0.0.clone();
         let __end = __sym2.2.clone();
-        let __nt = super::__action24::<>(__sym0, __sym1, __sym2);
+        let __nt = super::__action23::<>(__sym0, __sym1, __sym2);
         __symbols.push((__start, __Symbol::Variant2(__nt), __end));
-        (3, 4)
-    }
-    fn __reduce11<
-    >(
-        __lookahead_start: Option<&i64>,
-        __symbols: &mut alloc::vec::Vec<(i64,__Symbol<>,i64)>,
-        _: core::marker::PhantomData<()>,
-    ) -> (usize, usize)
-    {
-        // T = T, "*", F, F => ActionFn(25);
-        assert!(__symbols.len() >= 4);
-        let __sym3 = __pop_Variant2(__symbols);
-        let __sym2 = __pop_Variant2(__symbols);
-        let __sym1 = __pop_Variant0(__symbols);
-        let __sym0 = __pop_Variant2(__symbols);
-        let __start = __sym0.0.clone();
-        let __end = __sym3.2.clone();
-        let __nt = super::__action25::<>(__sym0, __sym1, __sym2, __sym3);
-        __symbols.push((__start, __Symbol::Variant2(__nt), __end));
-        (4, 5)
+        (3, 3)
     }
     fn __reduce12<
     >(
@@ -746,17 +905,138 @@ mod __parse__E {
         _: core::marker::PhantomData<()>,
     ) -> (usize, usize)
     {
-        // T = F => ActionFn(26);
+        // S = "two", ",", "one" => ActionFn(25);
+        assert!(__symbols.len() >= 3);
+        let __sym2 = __pop_Variant0(__symbols);
+        let __sym1 = __pop_Variant0(__symbols);
+        let __sym0 = __pop_Variant0(__symbols);
+        let __start = __sym0.0.clone();
+        let __end = __sym2.2.clone();
+        let __nt = super::__action25::<>(__sym0, __sym1, __sym2);
+        __symbols.push((__start, __Symbol::Variant2(__nt), __end));
+        (3, 3)
+    }
+    fn __reduce13<
+    >(
+        __lookahead_start: Option<&i64>,
+        __symbols: &mut alloc::vec::Vec<(i64,__Symbol<>,i64)>,
+        _: core::marker::PhantomData<()>,
+    ) -> (usize, usize)
+    {
+        // S = "two", ",", "two" => ActionFn(26);
+        assert!(__symbols.len() >= 3);
+        let __sym2 = __pop_Variant0(__symbols);
+        let __sym1 = __pop_Variant0(__symbols);
+        let __sym0 = __pop_Variant0(__symbols);
+        let __start = __sym0.0.clone();
+        let __end = __sym2.2.clone();
+        let __nt = super::__action26::<>(__sym0, __sym1, __sym2);
+        __symbols.push((__start, __Symbol::Variant2(__nt), __end));
+        (3, 3)
+    }
+    fn __reduce16<
+    >(
+        __lookahead_start: Option<&i64>,
+        __symbols: &mut alloc::vec::Vec<(i64,__Symbol<>,i64)>,
+        _: core::marker::PhantomData<()>,
+    ) -> (usize, usize)
+    {
+        // S = S, ";", "n", ",", "two" => ActionFn(29);
+        assert!(__symbols.len() >= 5);
+        let __sym4 = __pop_Variant0(__symbols);
+        let __sym3 = __pop_Variant0(__symbols);
+        let __sym2 = __pop_Variant0(__symbols);
+        let __sym1 = __pop_Variant0(__symbols);
         let __sym0 = __pop_Variant2(__symbols);
         let __start = __sym0.0.clone();
-        let __end = __sym0.2.clone();
-        let __nt = super::__action26::<>(__sym0);
+        let __end = __sym4.2.clone();
+        let __nt = super::__action29::<>(__sym0, __sym1, __sym2, __sym3, __sym4);
         __symbols.push((__start, __Symbol::Variant2(__nt), __end));
-        (1, 5)
+        (5, 3)
+    }
+    fn __reduce18<
+    >(
+        __lookahead_start: Option<&i64>,
+        __symbols: &mut alloc::vec::Vec<(i64,__Symbol<>,i64)>,
+        _: core::marker::PhantomData<()>,
+    ) -> (usize, usize)
+    {
+        // S = S, ";", "one", ",", "one" => ActionFn(31);
+        assert!(__symbols.len() >= 5);
+        let __sym4 = __pop_Variant0(__symbols);
+        let __sym3 = __pop_Variant0(__symbols);
+        let __sym2 = __pop_Variant0(__symbols);
+        let __sym1 = __pop_Variant0(__symbols);
+        let __sym0 = __pop_Variant2(__symbols);
+        let __start = __sym0.0.clone();
+        let __end = __sym4.2.clone();
+        let __nt = super::__action31::<>(__sym0, __sym1, __sym2, __sym3, __sym4);
+        __symbols.push((__start, __Symbol::Variant2(__nt), __end));
+        (5, 3)
+    }
+    fn __reduce19<
+    >(
+        __lookahead_start: Option<&i64>,
+        __symbols: &mut alloc::vec::Vec<(i64,__Symbol<>,i64)>,
+        _: core::marker::PhantomData<()>,
+    ) -> (usize, usize)
+    {
+        // S = S, ";", "one", ",", "two" => ActionFn(32);
+        assert!(__symbols.len() >= 5);
+        let __sym4 = __pop_Variant0(__symbols);
+        let __sym3 = __pop_Variant0(__symbols);
+        let __sym2 = __pop_Variant0(__symbols);
+        let __sym1 = __pop_Variant0(__symbols);
+        let __sym0 = __pop_Variant2(__symbols);
+        let __start = __sym0.0.clone();
+        let __end = __sym4.2.clone();
+        let __nt = super::__action32::<>(__sym0, __sym1, __sym2, __sym3, __sym4);
+        __symbols.push((__start, __Symbol::Variant2(__nt), __end));
+        (5, 3)
+    }
+    fn __reduce21<
+    >(
+        __lookahead_start: Option<&i64>,
+        __symbols: &mut alloc::vec::Vec<(i64,__Symbol<>,i64)>,
+        _: core::marker::PhantomData<()>,
+    ) -> (usize, usize)
+    {
+        // S = S, ";", "two", ",", "one" => ActionFn(34);
+        assert!(__symbols.len() >= 5);
+        let __sym4 = __pop_Variant0(__symbols);
+        let __sym3 = __pop_Variant0(__symbols);
+        let __sym2 = __pop_Variant0(__symbols);
+        let __sym1 = __pop_Variant0(__symbols);
+        let __sym0 = __pop_Variant2(__symbols);
+        let __start = __sym0.0.clone();
+        let __end = __sym4.2.clone();
+        let __nt = super::__action34::<>(__sym0, __sym1, __sym2, __sym3, __sym4);
+        __symbols.push((__start, __Symbol::Variant2(__nt), __end));
+        (5, 3)
+    }
+    fn __reduce22<
+    >(
+        __lookahead_start: Option<&i64>,
+        __symbols: &mut alloc::vec::Vec<(i64,__Symbol<>,i64)>,
+        _: core::marker::PhantomData<()>,
+    ) -> (usize, usize)
+    {
+        // S = S, ";", "two", ",", "two" => ActionFn(35);
+        assert!(__symbols.len() >= 5);
+        let __sym4 = __pop_Variant0(__symbols);
+        let __sym3 = __pop_Variant0(__symbols);
+        let __sym2 = __pop_Variant0(__symbols);
+        let __sym1 = __pop_Variant0(__symbols);
+        let __sym0 = __pop_Variant2(__symbols);
+        let __start = __sym0.0.clone();
+        let __end = __sym4.2.clone();
+        let __nt = super::__action35::<>(__sym0, __sym1, __sym2, __sym3, __sym4);
+        __symbols.push((__start, __Symbol::Variant2(__nt), __end));
+        (5, 3)
     }
 }
 #[allow(unused_imports)]
-pub use self::__parse__E::EParser;
+pub use self::__parse__S::SParser;
 
 #[allow(clippy::too_many_arguments, clippy::needless_lifetimes, clippy::just_underscores_and_digits, clippy::extra_unused_type_parameters)]
 fn __action0<
@@ -777,7 +1057,7 @@ fn __action1<
     (_, r, _): (i64, i64, i64),
 ) -> Tree
 {
-    node("E#0", l, r, vec![Tree::from(c0), Tree::from(c1), Tree::from(c2)])
+    node("S#0", l, r, vec![Tree::from(c0), Tree::from(c1), Tree::from(c2)])
 }
 
 #[allow(clippy::too_many_arguments, clippy::needless_lifetimes, clippy::just_underscores_and_digits, clippy::extra_unused_type_parameters)]
@@ -785,87 +1065,51 @@ fn __action2<
 >(
     (_, l, _): (i64, i64, i64),
     (_, c0, _): (i64, Tree, i64),
+    (_, c1, _): (i64, Tok, i64),
+    (_, c2, _): (i64, Tree, i64),
+    (_, c3, _): (i64, Tok, i64),
+    (_, c4, _): (i64, Tree, i64),
     (_, r, _): (i64, i64, i64),
 ) -> Tree
 {
-    node("E#1", l, r, vec![Tree::from(c0)])
+    node("S#1", l, r, vec![Tree::from(c0), Tree::from(c1), Tree::from(c2), Tree::from(c3), Tree::from(c4)])
 }
 
 #[allow(clippy::too_many_arguments, clippy::needless_lifetimes, clippy::just_underscores_and_digits, clippy::extra_unused_type_parameters)]
 fn __action3<
 >(
     (_, l, _): (i64, i64, i64),
-    (_, c0, _): (i64, Tree, i64),
-    (_, c1, _): (i64, Tok, i64),
-    (_, c2, _): (i64, Tree, i64),
-    (_, c3, _): (i64, Tree, i64),
+    (_, c0, _): (i64, Tok, i64),
     (_, r, _): (i64, i64, i64),
-) -> Tree
+) -> Result<Tree,__lalrpop_util::ParseError<i64,Tok,u64>>
 {
-    node("T#0", l, r, vec![Tree::from(c0), Tree::from(c1), Tree::from(c2), Tree::from(c3)])
+    fallible("I#0", l, r, vec![Tree::from(c0)])
 }
 
 #[allow(clippy::too_many_arguments, clippy::needless_lifetimes, clippy::just_underscores_and_digits, clippy::extra_unused_type_parameters)]
 fn __action4<
 >(
     (_, l, _): (i64, i64, i64),
-    (_, c0, _): (i64, Tree, i64),
+    (_, c0, _): (i64, Tok, i64),
     (_, r, _): (i64, i64, i64),
 ) -> Tree
 {
-    node("T#1", l, r, vec![Tree::from(c0)])
+    node("I#1", l, r, vec![Tree::from(c0)])
 }
 
 #[allow(clippy::too_many_arguments, clippy::needless_lifetimes, clippy::just_underscores_and_digits, clippy::extra_unused_type_parameters)]
 fn __action5<
 >(
     (_, l, _): (i64, i64, i64),
-    (_, c0, _): (i64, Tree, i64),
-    (_, c1, _): (i64, Tree, i64),
-    (_, r, _): (i64, i64, i64),
-) -> Tree
-{
-    node("F#0", l, r, vec![Tree::from(c0), Tree::from(c1)])
-}
-
-#[allow(clippy::too_many_arguments, clippy::needless_lifetimes, clippy::just_underscores_and_digits, clippy::extra_unused_type_parameters)]
-fn __action6<
->(
-    (_, l, _): (i64, i64, i64),
-    (_, c0, _): (i64, Tok, i64),
-    (_, c1, _): (i64, Tree, i64),
-    (_, c2, _): (i64, Tok, i64),
-    (_, r, _): (i64, i64, i64),
-) -> Tree
-{
-    node("F#1", l, r, vec![Tree::from(c0), Tree::from(c1), Tree::from(c2)])
-}
-
-#[allow(clippy::too_many_arguments, clippy::needless_lifetimes, clippy::just_underscores_and_digits, clippy::extra_unused_type_parameters)]
-fn __action7<
->(
-    (_, l, _): (i64, i64, i64),
     (_, c0, _): (i64, Tok, i64),
     (_, r, _): (i64, i64, i64),
 ) -> Tree
 {
-    node("A#0", l, r, vec![Tree::from(c0)])
-}
-
-#[allow(clippy::too_many_arguments, clippy::needless_lifetimes, clippy::just_underscores_and_digits, clippy::extra_unused_type_parameters)]
-fn __action8<
->(
-    (_, l, _): (i64, i64, i64),
-    (_, c0, _): (i64, Tok, i64),
-    (_, c1, _): (i64, Tok, i64),
-    (_, r, _): (i64, i64, i64),
-) -> Tree
-{
-    node("A#1", l, r, vec![Tree::from(c0), Tree::from(c1)])
+    node("I#2", l, r, vec![Tree::from(c0)])
 }
 
 #[allow(clippy::needless_lifetimes, clippy::clone_on_copy)]
-fn __action9<
+fn __action6<
 >(
     __lookbehind: &i64,
     __lookahead: &i64,
@@ -875,7 +1119,7 @@ fn __action9<
 }
 
 #[allow(clippy::needless_lifetimes, clippy::clone_on_copy)]
-fn __action10<
+fn __action7<
 >(
     __lookbehind: &i64,
     __lookahead: &i64,
@@ -886,7 +1130,29 @@ fn __action10<
 
 #[allow(clippy::too_many_arguments, clippy::needless_lifetimes,
     clippy::just_underscores_and_digits, clippy::clone_on_copy, clippy::unit_arg)]
-fn __action11<
+fn __action8<
+>(
+    __0: (i64, Tok, i64),
+    __1: (i64, i64, i64),
+) -> Result<Tree,__lalrpop_util::ParseError<i64,Tok,u64>>
+{
+    let __start0 = __0.0.clone();
+    let __end0 = __0.0.clone();
+    let __temp0 = __action7(
+        &__start0,
+        &__end0,
+    );
+    let __temp0 = (__start0, __temp0, __end0);
+    __action3(
+        __temp0,
+        __0,
+        __1,
+    )
+}
+
+#[allow(clippy::too_many_arguments, clippy::needless_lifetimes,
+    clippy::just_underscores_and_digits, clippy::clone_on_copy, clippy::unit_arg)]
+fn __action9<
 >(
     __0: (i64, Tok, i64),
     __1: (i64, i64, i64),
@@ -894,12 +1160,12 @@ fn __action11<
 {
     let __start0 = __0.0.clone();
     let __end0 = __0.0.clone();
-    let __temp0 = __action10(
+    let __temp0 = __action7(
         &__start0,
         &__end0,
     );
     let __temp0 = (__start0, __temp0, __end0);
-    __action7(
+    __action4(
         __temp0,
         __0,
         __1,
@@ -908,31 +1174,29 @@ fn __action11<
 
 #[allow(clippy::too_many_arguments, clippy::needless_lifetimes,
     clippy::just_underscores_and_digits, clippy::clone_on_copy, clippy::unit_arg)]
-fn __action12<
+fn __action10<
 >(
     __0: (i64, Tok, i64),
-    __1: (i64, Tok, i64),
-    __2: (i64, i64, i64),
+    __1: (i64, i64, i64),
 ) -> Tree
 {
     let __start0 = __0.0.clone();
     let __end0 = __0.0.clone();
-    let __temp0 = __action10(
+    let __temp0 = __action7(
         &__start0,
         &__end0,
     );
     let __temp0 = (__start0, __temp0, __end0);
-    __action8(
+    __action5(
         __temp0,
         __0,
         __1,
-        __2,
     )
 }
 
 #[allow(clippy::too_many_arguments, clippy::needless_lifetimes,
     clippy::just_underscores_and_digits, clippy::clone_on_copy, clippy::unit_arg)]
-fn __action13<
+fn __action11<
 >(
     __0: (i64, Tree, i64),
     __1: (i64, Tok, i64),
@@ -942,7 +1206,7 @@ fn __action13<
 {
     let __start0 = __0.0.clone();
     let __end0 = __0.0.clone();
-    let __temp0 = __action10(
+    let __temp0 = __action7(
         &__start0,
         &__end0,
     );
@@ -958,15 +1222,19 @@ fn __action13<
 
 #[allow(clippy::too_many_arguments, clippy::needless_lifetimes,
     clippy::just_underscores_and_digits, clippy::clone_on_copy, clippy::unit_arg)]
-fn __action14<
+fn __action12<
 >(
     __0: (i64, Tree, i64),
-    __1: (i64, i64, i64),
+    __1: (i64, Tok, i64),
+    __2: (i64, Tree, i64),
+    __3: (i64, Tok, i64),
+    __4: (i64, Tree, i64),
+    __5: (i64, i64, i64),
 ) -> Tree
 {
     let __start0 = __0.0.clone();
     let __end0 = __0.0.clone();
-    let __temp0 = __action10(
+    let __temp0 = __action7(
         &__start0,
         &__end0,
     );
@@ -975,6 +1243,50 @@ fn __action14<
         __temp0,
         __0,
         __1,
+        __2,
+        __3,
+        __4,
+        __5,
+    )
+}
+
+#[allow(clippy::too_many_arguments, clippy::needless_lifetimes,
+    clippy::just_underscores_and_digits, clippy::clone_on_copy, clippy::unit_arg)]
+fn __action13<
+>(
+    __0: (i64, Tok, i64),
+) -> Result<Tree,__lalrpop_util::ParseError<i64,Tok,u64>>
+{
+    let __start0 = __0.2.clone();
+    let __end0 = __0.2.clone();
+    let __temp0 = __action6(
+        &__start0,
+        &__end0,
+    );
+    let __temp0 = (__start0, __temp0, __end0);
+    __action8(
+        __0,
+        __temp0,
+    )
+}
+
+#[allow(clippy::too_many_arguments, clippy::needless_lifetimes,
+    clippy::just_underscores_and_digits, clippy::clone_on_copy, clippy::unit_arg)]
+fn __action14<
+>(
+    __0: (i64, Tok, i64),
+) -> Tree
+{
+    let __start0 = __0.2.clone();
+    let __end0 = __0.2.clone();
+    let __temp0 = __action6(
+        &__start0,
+        &__end0,
+    );
+    let __temp0 = (__start0, __temp0, __end0);
+    __action9(
+        __0,
+        __temp0,
     )
 }
 
@@ -982,23 +1294,19 @@ fn __action14<
     clippy::just_underscores_and_digits, clippy::clone_on_copy, clippy::unit_arg)]
 fn __action15<
 >(
-    __0: (i64, Tree, i64),
-    __1: (i64, Tree, i64),
-    __2: (i64, i64, i64),
+    __0: (i64, Tok, i64),
 ) -> Tree
 {
-    let __start0 = __0.0.clone();
-    let __end0 = __0.0.clone();
-    let __temp0 = __action10(
+    let __start0 = __0.2.clone();
+    let __end0 = __0.2.clone();
+    let __temp0 = __action6(
         &__start0,
         &__end0,
     );
     let __temp0 = (__start0, __temp0, __end0);
-    __action5(
-        __temp0,
+    __action10(
         __0,
-        __1,
-        __2,
+        __temp0,
     )
 }
 
@@ -1006,25 +1314,23 @@ fn __action15<
     clippy::just_underscores_and_digits, clippy::clone_on_copy, clippy::unit_arg)]
 fn __action16<
 >(
-    __0: (i64, Tok, i64),
-    __1: (i64, Tree, i64),
-    __2: (i64, Tok, i64),
-    __3: (i64, i64, i64),
+    __0: (i64, Tree, i64),
+    __1: (i64, Tok, i64),
+    __2: (i64, Tree, i64),
 ) -> Tree
 {
-    let __start0 = __0.0.clone();
-    let __end0 = __0.0.clone();
-    let __temp0 = __action10(
+    let __start0 = __2.2.clone();
+    let __end0 = __2.2.clone();
+    let __temp0 = __action6(
         &__start0,
         &__end0,
     );
     let __temp0 = (__start0, __temp0, __end0);
-    __action6(
-        __temp0,
+    __action11(
         __0,
         __1,
         __2,
-        __3,
+        __temp0,
     )
 }
 
@@ -1035,24 +1341,24 @@ fn __action17<
     __0: (i64, Tree, i64),
     __1: (i64, Tok, i64),
     __2: (i64, Tree, i64),
-    __3: (i64, Tree, i64),
-    __4: (i64, i64, i64),
+    __3: (i64, Tok, i64),
+    __4: (i64, Tree, i64),
 ) -> Tree
 {
-    let __start0 = __0.0.clone();
-    let __end0 = __0.0.clone();
-    let __temp0 = __action10(
+    let __start0 = __4.2.clone();
+    let __end0 = __4.2.clone();
+    let __temp0 = __action6(
         &__start0,
         &__end0,
     );
     let __temp0 = (__start0, __temp0, __end0);
-    __action3(
-        __temp0,
+    __action12(
         __0,
         __1,
         __2,
         __3,
         __4,
+        __temp0,
     )
 }
 
@@ -1060,22 +1366,28 @@ fn __action17<
     clippy::just_underscores_and_digits, clippy::clone_on_copy, clippy::unit_arg)]
 fn __action18<
 >(
-    __0: (i64, Tree, i64),
-    __1: (i64, i64, i64),
-) -> Tree
+    __0: (i64, Tok, i64),
+    __1: (i64, Tok, i64),
+    __2: (i64, Tok, i64),
+) -> Result<Tree,__lalrpop_util::ParseError<i64,Tok,u64>>
 {
     let __start0 = __0.0.clone();
-    let __end0 = __0.0.clone();
-    let __temp0 = __action10(
-        &__start0,
-        &__end0,
-    );
-    let __temp0 = (__start0, __temp0, __end0);
-    __action4(
-        __temp0,
+    let __end0 = __0.2.clone();
+    let __start1 = __2.0.clone();
+    let __end1 = __2.2.clone();
+    let __temp0 = __action13(
         __0,
+    )?;
+    let __temp0 = (__start0, __temp0, __end0);
+    let __temp1 = __action13(
+        __2,
+    )?;
+    let __temp1 = (__start1, __temp1, __end1);
+    Ok(__action16(
+        __temp0,
         __1,
-    )
+        __temp1,
+    ))
 }
 
 #[allow(clippy::too_many_arguments, clippy::needless_lifetimes,
@@ -1083,19 +1395,27 @@ fn __action18<
 fn __action19<
 >(
     __0: (i64, Tok, i64),
-) -> Tree
+    __1: (i64, Tok, i64),
+    __2: (i64, Tok, i64),
+) -> Result<Tree,__lalrpop_util::ParseError<i64,Tok,u64>>
 {
-    let __start0 = __0.2.clone();
+    let __start0 = __0.0.clone();
     let __end0 = __0.2.clone();
-    let __temp0 = __action9(
-        &__start0,
-        &__end0,
-    );
-    let __temp0 = (__start0, __temp0, __end0);
-    __action11(
+    let __start1 = __2.0.clone();
+    let __end1 = __2.2.clone();
+    let __temp0 = __action13(
         __0,
+    )?;
+    let __temp0 = (__start0, __temp0, __end0);
+    let __temp1 = __action14(
+        __2,
+    );
+    let __temp1 = (__start1, __temp1, __end1);
+    Ok(__action16(
         __temp0,
-    )
+        __1,
+        __temp1,
+    ))
 }
 
 #[allow(clippy::too_many_arguments, clippy::needless_lifetimes,
@@ -1104,19 +1424,25 @@ fn __action20<
 >(
     __0: (i64, Tok, i64),
     __1: (i64, Tok, i64),
+    __2: (i64, Tok, i64),
 ) -> Tree
 {
-    let __start0 = __1.2.clone();
-    let __end0 = __1.2.clone();
-    let __temp0 = __action9(
-        &__start0,
-        &__end0,
-    );
-    let __temp0 = (__start0, __temp0, __end0);
-    __action12(
+    let __start0 = __0.0.clone();
+    let __end0 = __0.2.clone();
+    let __start1 = __2.0.clone();
+    let __end1 = __2.2.clone();
+    let __temp0 = __action13(
         __0,
-        __1,
+    )?;
+    let __temp0 = (__start0, __temp0, __end0);
+    let __temp1 = __action15(
+        __2,
+    );
+    let __temp1 = (__start1, __temp1, __end1);
+    __action16(
         __temp0,
+        __1,
+        __temp1,
     )
 }
 
@@ -1124,43 +1450,55 @@ fn __action20<
     clippy::just_underscores_and_digits, clippy::clone_on_copy, clippy::unit_arg)]
 fn __action21<
 >(
-    __0: (i64, Tree, i64),
+    __0: (i64, Tok, i64),
     __1: (i64, Tok, i64),
-    __2: (i64, Tree, i64),
-) -> Tree
+    __2: (i64, Tok, i64),
+) -> Result<Tree,__lalrpop_util::ParseError<i64,Tok,u64>>
 {
-    let __start0 = __2.2.clone();
-    let __end0 = __2.2.clone();
-    let __temp0 = __action9(
-        &__start0,
-        &__end0,
+    let __start0 = __0.0.clone();
+    let __end0 = __0.2.clone();
+    let __start1 = __2.0.clone();
+    let __end1 = __2.2.clone();
+    let __temp0 = __action14(
+        __0,
     );
     let __temp0 = (__start0, __temp0, __end0);
-    __action13(
-        __0,
-        __1,
+    let __temp1 = __action13(
         __2,
+    )?;
+    let __temp1 = (__start1, __temp1, __end1);
+    Ok(__action16(
         __temp0,
-    )
+        __1,
+        __temp1,
+    ))
 }
 
 #[allow(clippy::too_many_arguments, clippy::needless_lifetimes,
     clippy::just_underscores_and_digits, clippy::clone_on_copy, clippy::unit_arg)]
 fn __action22<
 >(
-    __0: (i64, Tree, i64),
+    __0: (i64, Tok, i64),
+    __1: (i64, Tok, i64),
+    __2: (i64, Tok, i64),
 ) -> Tree
 {
-    let __start0 = __0.2.clone();
+    let __start0 = __0.0.clone();
     let __end0 = __0.2.clone();
-    let __temp0 = __action9(
-        &__start0,
-        &__end0,
+    let __start1 = __2.0.clone();
+    let __end1 = __2.2.clone();
+    let __temp0 = __action14(
+        __0,
     );
     let __temp0 = (__start0, __temp0, __end0);
-    __action14(
-        __0,
+    let __temp1 = __action14(
+        __2,
+    );
+    let __temp1 = (__start1, __temp1, __end1);
+    __action16(
         __temp0,
+        __1,
+        __temp1,
     )
 }
 
@@ -1168,21 +1506,27 @@ fn __action22<
     clippy::just_underscores_and_digits, clippy::clone_on_copy, clippy::unit_arg)]
 fn __action23<
 >(
-    __0: (i64, Tree, i64),
-    __1: (i64, Tree, i64),
+    __0: (i64, Tok, i64),
+    __1: (i64, Tok, i64),
+    __2: (i64, Tok, i64),
 ) -> Tree
 {
-    let __start0 = __1.2.clone();
-    let __end0 = __1.2.clone();
-    let __temp0 = __action9(
-        &__start0,
-        &__end0,
+    let __start0 = __0.0.clone();
+    let __end0 = __0.2.clone();
+    let __start1 = __2.0.clone();
+    let __end1 = __2.2.clone();
+    let __temp0 = __action14(
+        __0,
     );
     let __temp0 = (__start0, __temp0, __end0);
-    __action15(
-        __0,
-        __1,
+    let __temp1 = __action15(
+        __2,
+    );
+    let __temp1 = (__start1, __temp1, __end1);
+    __action16(
         __temp0,
+        __1,
+        __temp1,
     )
 }
 
@@ -1191,48 +1535,54 @@ fn __action23<
 fn __action24<
 >(
     __0: (i64, Tok, i64),
-    __1: (i64, Tree, i64),
+    __1: (i64, Tok, i64),
     __2: (i64, Tok, i64),
-) -> Tree
+) -> Result<Tree,__lalrpop_util::ParseError<i64,Tok,u64>>
 {
-    let __start0 = __2.2.clone();
-    let __end0 = __2.2.clone();
-    let __temp0 = __action9(
-        &__start0,
-        &__end0,
+    let __start0 = __0.0.clone();
+    let __end0 = __0.2.clone();
+    let __start1 = __2.0.clone();
+    let __end1 = __2.2.clone();
+    let __temp0 = __action15(
+        __0,
     );
     let __temp0 = (__start0, __temp0, __end0);
-    __action16(
-        __0,
-        __1,
+    let __temp1 = __action13(
         __2,
+    )?;
+    let __temp1 = (__start1, __temp1, __end1);
+    Ok(__action16(
         __temp0,
-    )
+        __1,
+        __temp1,
+    ))
 }
 
 #[allow(clippy::too_many_arguments, clippy::needless_lifetimes,
     clippy::just_underscores_and_digits, clippy::clone_on_copy, clippy::unit_arg)]
 fn __action25<
 >(
-    __0: (i64, Tree, i64),
+    __0: (i64, Tok, i64),
     __1: (i64, Tok, i64),
-    __2: (i64, Tree, i64),
-    __3: (i64, Tree, i64),
+    __2: (i64, Tok, i64),
 ) -> Tree
 {
-    let __start0 = __3.2.clone();
-    let __end0 = __3.2.clone();
-    let __temp0 = __action9(
-        &__start0,
-        &__end0,
+    let __start0 = __0.0.clone();
+    let __end0 = __0.2.clone();
+    let __start1 = __2.0.clone();
+    let __end1 = __2.2.clone();
+    let __temp0 = __action15(
+        __0,
     );
     let __temp0 = (__start0, __temp0, __end0);
-    __action17(
-        __0,
-        __1,
+    let __temp1 = __action14(
         __2,
-        __3,
+    );
+    let __temp1 = (__start1, __temp1, __end1);
+    __action16(
         __temp0,
+        __1,
+        __temp1,
     )
 }
 
@@ -1240,19 +1590,27 @@ fn __action25<
     clippy::just_underscores_and_digits, clippy::clone_on_copy, clippy::unit_arg)]
 fn __action26<
 >(
-    __0: (i64, Tree, i64),
+    __0: (i64, Tok, i64),
+    __1: (i64, Tok, i64),
+    __2: (i64, Tok, i64),
 ) -> Tree
 {
-    let __start0 = __0.2.clone();
+    let __start0 = __0.0.clone();
     let __end0 = __0.2.clone();
-    let __temp0 = __action9(
-        &__start0,
-        &__end0,
+    let __start1 = __2.0.clone();
+    let __end1 = __2.2.clone();
+    let __temp0 = __action15(
+        __0,
     );
     let __temp0 = (__start0, __temp0, __end0);
-    __action18(
-        __0,
+    let __temp1 = __action15(
+        __2,
+    );
+    let __temp1 = (__start1, __temp1, __end1);
+    __action16(
         __temp0,
+        __1,
+        __temp1,
     )
 }
 
@@ -1260,80 +1618,94 @@ fn __action26<
     clippy::just_underscores_and_digits, clippy::clone_on_copy, clippy::unit_arg)]
 fn __action27<
 >(
-    __0: (i64, Tok, i64),
+    __0: (i64, Tree, i64),
     __1: (i64, Tok, i64),
-) -> Tree
+    __2: (i64, Tok, i64),
+    __3: (i64, Tok, i64),
+    __4: (i64, Tok, i64),
+) -> Result<Tree,__lalrpop_util::ParseError<i64,Tok,u64>>
 {
-    let __start0 = __0.0.clone();
-    let __end0 = __0.2.clone();
-    let __start1 = __1.0.clone();
-    let __end1 = __1.2.clone();
-    let __temp0 = __action19(
-        __0,
-    );
+    let __start0 = __2.0.clone();
+    let __end0 = __2.2.clone();
+    let __start1 = __4.0.clone();
+    let __end1 = __4.2.clone();
+    let __temp0 = __action13(
+        __2,
+    )?;
     let __temp0 = (__start0, __temp0, __end0);
-    let __temp1 = __action19(
-        __1,
-    );
+    let __temp1 = __action13(
+        __4,
+    )?;
     let __temp1 = (__start1, __temp1, __end1);
-    __action23(
+    Ok(__action17(
+        __0,
+        __1,
         __temp0,
+        __3,
         __temp1,
-    )
+    ))
 }
 
 #[allow(clippy::too_many_arguments, clippy::needless_lifetimes,
     clippy::just_underscores_and_digits, clippy::clone_on_copy, clippy::unit_arg)]
 fn __action28<
 >(
-    __0: (i64, Tok, i64),
+    __0: (i64, Tree, i64),
     __1: (i64, Tok, i64),
     __2: (i64, Tok, i64),
-) -> Tree
+    __3: (i64, Tok, i64),
+    __4: (i64, Tok, i64),
+) -> Result<Tree,__lalrpop_util::ParseError<i64,Tok,u64>>
 {
-    let __start0 = __0.0.clone();
-    let __end0 = __0.2.clone();
-    let __start1 = __1.0.clone();
-    let __end1 = __2.2.clone();
-    let __temp0 = __action19(
-        __0,
-    );
-    let __temp0 = (__start0, __temp0, __end0);
-    let __temp1 = __action20(
-        __1,
+    let __start0 = __2.0.clone();
+    let __end0 = __2.2.clone();
+    let __start1 = __4.0.clone();
+    let __end1 = __4.2.clone();
+    let __temp0 = __action13(
         __2,
+    )?;
+    let __temp0 = (__start0, __temp0, __end0);
+    let __temp1 = __action14(
+        __4,
     );
     let __temp1 = (__start1, __temp1, __end1);
-    __action23(
+    Ok(__action17(
+        __0,
+        __1,
         __temp0,
+        __3,
         __temp1,
-    )
+    ))
 }
 
 #[allow(clippy::too_many_arguments, clippy::needless_lifetimes,
     clippy::just_underscores_and_digits, clippy::clone_on_copy, clippy::unit_arg)]
 fn __action29<
 >(
-    __0: (i64, Tok, i64),
+    __0: (i64, Tree, i64),
     __1: (i64, Tok, i64),
     __2: (i64, Tok, i64),
+    __3: (i64, Tok, i64),
+    __4: (i64, Tok, i64),
 ) -> Tree
 {
-    let __start0 = __0.0.clone();
-    let __end0 = __1.2.clone();
-    let __start1 = __2.0.clone();
-    let __end1 = __2.2.clone();
-    let __temp0 = __action20(
-        __0,
-        __1,
-    );
-    let __temp0 = (__start0, __temp0, __end0);
-    let __temp1 = __action19(
+    let __start0 = __2.0.clone();
+    let __end0 = __2.2.clone();
+    let __start1 = __4.0.clone();
+    let __end1 = __4.2.clone();
+    let __temp0 = __action13(
         __2,
+    )?;
+    let __temp0 = (__start0, __temp0, __end0);
+    let __temp1 = __action15(
+        __4,
     );
     let __temp1 = (__start1, __temp1, __end1);
-    __action23(
+    __action17(
+        __0,
+        __1,
         __temp0,
+        __3,
         __temp1,
     )
 }
@@ -1342,28 +1714,190 @@ fn __action29<
     clippy::just_underscores_and_digits, clippy::clone_on_copy, clippy::unit_arg)]
 fn __action30<
 >(
-    __0: (i64, Tok, i64),
+    __0: (i64, Tree, i64),
     __1: (i64, Tok, i64),
     __2: (i64, Tok, i64),
     __3: (i64, Tok, i64),
-) -> Tree
+    __4: (i64, Tok, i64),
+) -> Result<Tree,__lalrpop_util::ParseError<i64,Tok,u64>>
 {
-    let __start0 = __0.0.clone();
-    let __end0 = __1.2.clone();
-    let __start1 = __2.0.clone();
-    let __end1 = __3.2.clone();
-    let __temp0 = __action20(
-        __0,
-        __1,
+    let __start0 = __2.0.clone();
+    let __end0 = __2.2.clone();
+    let __start1 = __4.0.clone();
+    let __end1 = __4.2.clone();
+    let __temp0 = __action14(
+        __2,
     );
     let __temp0 = (__start0, __temp0, __end0);
-    let __temp1 = __action20(
-        __2,
+    let __temp1 = __action13(
+        __4,
+    )?;
+    let __temp1 = (__start1, __temp1, __end1);
+    Ok(__action17(
+        __0,
+        __1,
+        __temp0,
         __3,
+        __temp1,
+    ))
+}
+
+#[allow(clippy::too_many_arguments, clippy::needless_lifetimes,
+    clippy::just_underscores_and_digits, clippy::clone_on_copy, clippy::unit_arg)]
+fn __action31<
+>(
+    __0: (i64, Tree, i64),
+    __1: (i64, Tok, i64),
+    __2: (i64, Tok, i64),
+    __3: (i64, Tok, i64),
+    __4: (i64, Tok, i64),
+) -> Tree
+{
+    let __start0 = __2.0.clone();
+    let __end0 = __2.2.clone();
+    let __start1 = __4.0.clone();
+    let __end1 = __4.2.clone();
+    let __temp0 = __action14(
+        __2,
+    );
+    let __temp0 = (__start0, __temp0, __end0);
+    let __temp1 = __action14(
+        __4,
     );
     let __temp1 = (__start1, __temp1, __end1);
-    __action23(
+    __action17(
+        __0,
+        __1,
         __temp0,
+        __3,
+        __temp1,
+    )
+}
+
+#[allow(clippy::too_many_arguments, clippy::needless_lifetimes,
+    clippy::just_underscores_and_digits, clippy::clone_on_copy, clippy::unit_arg)]
+fn __action32<
+>(
+    __0: (i64, Tree, i64),
+    __1: (i64, Tok, i64),
+    __2: (i64, Tok, i64),
+    __3: (i64, Tok, i64),
+    __4: (i64, Tok, i64),
+) -> Tree
+{
+    let __start0 = __2.0.clone();
+    let __end0 = __2.2.clone();
+    let __start1 = __4.0.clone();
+    let __end1 = __4.2.clone();
+    let __temp0 = __action14(
+        __2,
+    );
+    let __temp0 = (__start0, __temp0, __end0);
+    let __temp1 = __action15(
+        __4,
+    );
+    let __temp1 = (__start1, __temp1, __end1);
+    __action17(
+        __0,
+        __1,
+        __temp0,
+        __3,
+        __temp1,
+    )
+}
+
+#[allow(clippy::too_many_arguments, clippy::needless_lifetimes,
+    clippy::just_underscores_and_digits, clippy::clone_on_copy, clippy::unit_arg)]
+fn __action33<
+>(
+    __0: (i64, Tree, i64),
+    __1: (i64, Tok, i64),
+    __2: (i64, Tok, i64),
+    __3: (i64, Tok, i64),
+    __4: (i64, Tok, i64),
+) -> Result<Tree,__lalrpop_util::ParseError<i64,Tok,u64>>
+{
+    let __start0 = __2.0.clone();
+    let __end0 = __2.2.clone();
+    let __start1 = __4.0.clone();
+    let __end1 = __4.2.clone();
+    let __temp0 = __action15(
+        __2,
+    );
+    let __temp0 = (__start0, __temp0, __end0);
+    let __temp1 = __action13(
+        __4,
+    )?;
+    let __temp1 = (__start1, __temp1, __end1);
+    Ok(__action17(
+        __0,
+        __1,
+        __temp0,
+        __3,
+        __temp1,
+    ))
+}
+
+#[allow(clippy::too_many_arguments, clippy::needless_lifetimes,
+    clippy::just_underscores_and_digits, clippy::clone_on_copy, clippy::unit_arg)]
+fn __action34<
+>(
+    __0: (i64, Tree, i64),
+    __1: (i64, Tok, i64),
+    __2: (i64, Tok, i64),
+    __3: (i64, Tok, i64),
+    __4: (i64, Tok, i64),
+) -> Tree
+{
+    let __start0 = __2.0.clone();
+    let __end0 = __2.2.clone();
+    let __start1 = __4.0.clone();
+    let __end1 = __4.2.clone();
+    let __temp0 = __action15(
+        __2,
+    );
+    let __temp0 = (__start0, __temp0, __end0);
+    let __temp1 = __action14(
+        __4,
+    );
+    let __temp1 = (__start1, __temp1, __end1);
+    __action17(
+        __0,
+        __1,
+        __temp0,
+        __3,
+        __temp1,
+    )
+}
+
+#[allow(clippy::too_many_arguments, clippy::needless_lifetimes,
+    clippy::just_underscores_and_digits, clippy::clone_on_copy, clippy::unit_arg)]
+fn __action35<
+>(
+    __0: (i64, Tree, i64),
+    __1: (i64, Tok, i64),
+    __2: (i64, Tok, i64),
+    __3: (i64, Tok, i64),
+    __4: (i64, Tok, i64),
+) -> Tree
+{
+    let __start0 = __2.0.clone();
+    let __end0 = __2.2.clone();
+    let __start1 = __4.0.clone();
+    let __end1 = __4.2.clone();
+    let __temp0 = __action15(
+        __2,
+    );
+    let __temp0 = (__start0, __temp0, __end0);
+    let __temp1 = __action15(
+        __4,
+    );
+    let __temp1 = (__start1, __temp1, __end1);
+    __action17(
+        __0,
+        __1,
+        __temp0,
+        __3,
         __temp1,
     )
 }
